@@ -1014,8 +1014,53 @@ class DataT:
         self.seen_version = self.storage.version
 
     # -------------------------------------------------------- broadcasting
+    def retag_units(self, dims):
+        """The enumerated / spatial typing of an axis of extent 1 is a bookkeeping choice (moving a unit axis does
+        not move data).  Returns self re-typed to `dims` when the two typings differ only at unit axes and have the
+        same number of spatial axes, else None."""
+        sd = list(self.dims)
+        dims = [tuple(d) for d in dims]
+        if len(sd) != len(dims) or [s for _, s in sd] != [s for _, s in dims]:
+            return None
+        if sd == dims:
+            return self
+        if any(a[0] != b[0] and a[1] != 1 for a, b in zip(sd, dims)):
+            return None
+        s_self = [i for i, (k, _) in enumerate(sd) if k == 'S']
+        s_tgt = [i for i, (k, _) in enumerate(dims) if k == 'S']
+        if len(s_self) != len(s_tgt) or getattr(self, 'nl', False):
+            return None
+        # match spatial axes: non-unit ones sit at the same position; unit ones are paired in order
+        unit_self = [i for i in s_self if sd[i][1] == 1]
+        unit_tgt = [i for i in s_tgt if dims[i][1] == 1]
+        if len(unit_self) != len(unit_tgt):
+            return None
+        pair = dict(zip(unit_tgt, unit_self))
+        order = []
+        for i in s_tgt:
+            j = i if dims[i][1] != 1 else pair[i]
+            order.append(s_self.index(j))
+        cells = np.empty(tuple(s for k, s in dims if k == 'E'), dtype=object)
+        flat = list(self.cells.reshape(-1)) if self.cells.size else []
+        if cells.size != len(flat):
+            return None
+        for n, idx in enumerate(np.ndindex(*cells.shape)):
+            cell = flat[n]
+            if order != list(range(len(order))):
+                cell = tuple(Term(t.base, t.bchan, [t.tables[o] for o in order], t.coef) for t in cell)
+            cells[idx] = cell
+        r = DataT(dims, cells, dtype=self.dtype, storage=self.storage, is_view=self.is_view, device=self.device)
+        r.requires_grad = self.requires_grad
+        r.contig = self.contig
+        r.seen_version = getattr(self, 'seen_version', 0)
+        return r
+
     def broadcast_to_dims(self, dims):
         """numpy-style broadcast of self to the given dims (E dims may be 1; S dims must agree)."""
+        if len(self.dims) == len(dims) and list(self.dims) != [tuple(d) for d in dims]:
+            r = self.retag_units(dims)
+            if r is not None:
+                return r
         sd = list(self.dims)
         if len(sd) > len(dims):
             # allow leading size-1 dims to be dropped
@@ -1040,8 +1085,11 @@ class DataT:
             if k == 'S' or tk == 'S':
                 if k == 'E' and s == 1 and tk == 'S':
                     raise AnalysisError('unsupported', 'broadcast of an enumerated dim over a spatial axis')
-                if k != tk or s != ts:
+                if s != ts:
                     raise PyExc('RuntimeError', 'The size of tensor a (%s) must match the size of tensor b (%s)' % (s, ts))
+                if k != tk:
+                    raise AnalysisError('unsupported', 'an enumerated axis is aligned with a spatial axis of the '
+                                        'same extent (%s vs %s)' % (self.dims, list(dims)))
             else:
                 if s != ts and s != 1:
                     raise PyExc('RuntimeError', 'The size of tensor a (%s) must match the size of tensor b (%s)' % (s, ts))
